@@ -39,9 +39,11 @@ Record quirks := mkQ {
   q_look_trunc : bool;      (* F1: and_is / rewind reposition with a truncating rewind *)
   q_trymap_drop : bool;     (* F2: try_map drops the sheltered alt when its parser fails *)
   q_trymap_pos : bool;      (* F12: a successful try_map re-adds the inner alt at its own start *)
-  q_maperr_drop : bool      (* F3: map_err drops the sheltered alt when its parser succeeds *)
+  q_maperr_drop : bool;     (* F3: map_err drops the sheltered alt when its parser succeeds *)
+  q_exact_noalt : bool;     (* F10: collect_exactly fails without recording an error when the iterator ends early *)
+  q_emptychoice_none : bool (* F16: choice(&[]) reports found = None although not at the end of input *)
 }.
-Definition no_quirks : quirks := mkQ false false false false false.
+Definition no_quirks : quirks := mkQ false false false false false false false.
 
 Section Machine.
 Variable Q : quirks.
@@ -65,6 +67,13 @@ Definition reposition (s : st) (c : ckpt) : st :=
 (* merge a sheltered sub-parse's pending error back into the register *)
 Definition join_alt (s : st) (new : option lerr) : st :=
   match new with Some (p, e) => alt_err s p e | None => s end.
+
+(* "expected .. found <next token>" recorded at the cursor without consuming: save; next; span; rewind; add_alt *)
+Definition fail_here (exp : list N) (s : st) : st :=
+  let before := save s in
+  match next s with
+  | (found, s1) => alt_ef (rewind s1 before) exp found (spn (cur s) (cur s1))
+  end.
 
 (* one-token primitives share this shape: save; next; accept or (span; rewind; add_alt; Err) *)
 Definition one_tok (m : mode) (acc : tok -> option val) (exp : list N) (s : st) : outcome * st :=
@@ -509,7 +518,8 @@ Fixpoint go (n : nat) (m : mode) (g : G) (ctx : val) (s : st) {struct n} : outco
       end
   | ChoiceVec gs =>
       match gs with
-      | [] => (Err, alt_ef s [] None (spn (cur s) (cur s)))
+      | [] => if q_emptychoice_none Q then (Err, alt_ef s [] None (spn (cur s) (cur s)))
+              else (Err, fail_here [] s)
       | _ => choicevec_loop run m gs ctx (save s) s
       end
   | OrNot a =>
@@ -571,7 +581,9 @@ Fixpoint go (n : nat) (m : mode) (g : G) (ctx : val) (s : st) {struct n} : outco
   | CollectExactly k i =>
       match drive run (S k) m i ctx (mk_iter i ctx) (Some k) (fun _ => false) 0 [] s with
       | (Ok _, acc, false, s1) => (Ok (bindv m (VList (rev (map item_val acc)))), s1)
-      | (Ok _, _, true, s1) => (Err, s1)          (* iterator ended early: Err without recording an alt *)
+      | (Ok _, _, true, s1) =>                     (* the iterator ended early *)
+          if q_exact_noalt Q then (Err, s1)        (* F10: Err without recording an alt *)
+          else (Err, fail_here [pSomethingElse] s1)
       | (res, _, _, s1) => (res, s1)
       end
   | Foldl a i k =>
